@@ -71,6 +71,16 @@ def run(chk):
             if t[0:3] == ["x", "x", "x"]:
                 v["class"] = "blank-arch"
             chk.violate(v)
+    # a receiver that is used again: Arch.UnmarshalControl(b) into a value that holds the parse of a gives the parse of b
+    ok_names = [n for n, r in zip(names, ai) if not r.startswith("err")]
+    rc = [("areuse", [rng.choice(ok_names), b]) for b in rng.sample(ok_names, min(len(ok_names), 3000))]
+    ri = chk.run_impl(rc)
+    rf = chk.run_impl([("aparse", [c[1][1]]) for c in rc])
+    chk.record("arch-reused-receiver", rc, ri, lambda c, r: True)
+    for c, a, b in zip(rc, ri, rf):
+        if a != b:
+            chk.violate({"kind": "property", "case": lib.show_case(c), "impl": a, "fresh_parse": b,
+                         "explanation": "parsing an architecture name into a value that was used before gives another triple than a fresh parse"})
     chk.extra["arch_names_exhaustive"] = {"tokens": [x.decode() for x in TOK], "max_parts": 4}
     chk.assumptions += ["the architecture spelled '--' (triple of empty strings) is excluded: known finding blank-arch"]
 
